@@ -533,8 +533,12 @@ class Walker:
         if re.search(r"Atomic(::<.*?>)?::get_mut$", c):
             self.models_used.add("Atomic::get_mut")
             return K(("datacell", args[0]), events + [("N", "PLAIN_R", ("cell", args[0]))])
-        if re.match(r"^core::sync::atomic::fence$", c):
+        if re.match(r"^(?:(?:core|std)::sync::atomic::)?compiler_fence$", c):
+            self.models_used.add("compiler_fence = no event")
+            return K(("unk", "()"))
+        if re.match(r"^(?:(?:core|std)::sync::atomic::)?fence$", c):
             aid = self.fresh()
+            self.models_used.add("atomic::fence")
             return K(("unk", "fence"), events + [("A", aid, "fence", ("unk", "fence"), [a[1] for a in args if a[0] == "ord"], [])])
         if re.match(r"^ptr_map::<", c):
             self.models_used.add("ptr_map (tag arithmetic on the same pointer)")
